@@ -128,8 +128,8 @@ ADDENDA = {
                 text=" R-JET.halfturn: SO3::log at the exact half turn (every comparison decided by exact substitution) returns +-pi*v. R-SERIES.log: for the six groups the code of log applied to the code of exp gives log(exp t) = t + O(|t|^6) coefficient by coefficient, in the closed-form world and in every small-angle world.",
                 design="3/C03, 10.6, 10.7"),
     "C05": dict(technique="; exact polynomial Jacobians of compose/inverse/act (R-POLY.jac); power-series interpretation of the Jacobians written by exp and log (R-SERIES)",
-                text=" R-POLY.jac (exact): the Jacobians of inverse, compose and act equal the derivatives that follow from the matrix realisation. R-SERIES.expjac/logjac: the Jacobian written by exp(J), resp. by log(J) at exp(t), equals sum (-ad)^k/(k+1)!, resp. sum B_k (-ad)^k/k!, through order 4 for the six groups (closed-form and small-angle worlds).",
-                note=" The transcendental Jacobians are decided through order 4 of their expansion at the origin only.", design="3/C05, 10.5, 10.6"),
+                text=" R-POLY.jac (exact): the Jacobians of inverse, compose and act equal the derivatives that follow from the matrix realisation. R-SERIES.expjac/logjac: the Jacobian written by exp(J), resp. by log(J) at exp(t), equals sum (-ad)^k/(k+1)!, resp. sum B_k (-ad)^k/k!, through order 4 for the six groups (closed-form and small-angle worlds). R-SERIES.deriv (first principles, no theory table): for SO2 and SE2 every operation and for SO3 inverse / compose / between / act / exp / log / rminus (thorough: + rplus, lplus, lminus; SE3 inverse, between, act, exp) the Jacobian written by the code equals the eta-coefficient of f(.. (+) eta d ..) (-) f(..), eta^2 = 0, computed by interpreting the library's own code over truncated power series, through order 2 at the identity for a symbolic direction; every Jacobian is also requested alone.",
+                note=" The transcendental Jacobians are decided through order 4 (series) / order 2 (first principles) of their expansion at the origin only; rminus / lminus / log of SE3 and everything of SE_2_3 / SGal3 in R-SERIES.deriv are not attempted (cost).", design="3/C05, 10.5, 10.6, 10.8"),
     "C06": dict(technique="; exact adjoint (R-POLY.adj); power-series interpretation of rjac / ljac / rjacinv / ljacinv / Adj(exp t) (R-SERIES)",
                 text=" R-POLY.adj (exact): X.adj() e_i = vee(T(X) E_i T(X)^-1). R-SERIES: rjac, ljac, rjacinv, ljacinv equal their series in +-ad (Bernoulli numbers for the inverses; Eigen's inverse() of I + O(t) summarised by its Neumann series) and Adj(exp t) = sum ad^k/k!, through order 4 for the six groups, closed-form and small-angle worlds.",
                 note=" The series identities are decided through order 4 only.", design="3/C06, 10.5, 10.6"),
